@@ -116,10 +116,12 @@ impl IppAttribute {
     //    attributes (i.e., the "printer-uri" and "job-id" attributes), the
     //    "printer-uri" attribute MUST be the third attribute and the
     //    "job-id" attribute MUST be the fourth attribute.
-    const HEADER_ATTRS: [&'static str; 3] = [
+    const HEADER_ATTRS: [&'static str; 5] = [
         IppAttribute::ATTRIBUTES_CHARSET,
         IppAttribute::ATTRIBUTES_NATURAL_LANGUAGE,
         IppAttribute::PRINTER_URI,
+        IppAttribute::JOB_URI,
+        IppAttribute::JOB_ID,
     ];
 
     /// Create new instance of the attribute
